@@ -1661,8 +1661,10 @@ class PCE500Emulator:
             self.keyboard.load_state(keyboard_state)
 
         reg_values = _unpack_register_bytes(registers_blob)
+        # The Rust core names temporaries "TEMP<n>"; Python stores the bare index.
         temps = {
-            int(key): int(value) for key, value in (metadata.get("temps") or {}).items()
+            int(str(key).removeprefix("TEMP")): int(value)
+            for key, value in (metadata.get("temps") or {}).items()
         }
         snapshot = CPURegistersSnapshot(
             pc=reg_values["pc"],
